@@ -1,5 +1,3 @@
-//@unit C19/lcskpp
-//@rlimit 100
 use vstd::prelude::*;
 use vstd::std_specs::cmp::*;
 use std::marker::PhantomData;
@@ -55,24 +53,16 @@ proof fn lemma_cover_basic(j: u64, i: u64)
         assert(i & ((!i).wrapping_add(1)) >= 1) by (bit_vector) requires i >= 1;
     }
 }
-//@extract src/data_structures/bit_tree.rs :: trait PrefixOp
 pub trait PrefixOp<T> {
-//@+
     spec fn sop(t1: T, t2: T) -> T;
-//@-
-    fn operation(t1: T, t2: T) -> /*@+(r:@*/ T/*@+)@*/
-//@+
+    fn operation(t1: T, t2: T) -> (r: T)
         ensures r == Self::sop(t1, t2)
-//@-
     ;
 }
-//@end
-//@extract src/data_structures/bit_tree.rs :: struct FenwickTree
 pub struct FenwickTree<T: Default + Ord, Op: PrefixOp<T>> {
     tree: Vec<T>,
     phantom: PhantomData<Op>,
 }
-//@end
 pub open spec fn laws<T, Op: PrefixOp<T>>() -> bool {
     &&& forall|a: T, b: T| #[trigger] Op::sop(a, b) == Op::sop(b, a)
     &&& forall|a: T, b: T, c: T| #[trigger] Op::sop(Op::sop(a, b), c) == Op::sop(a, Op::sop(b, c))
@@ -139,94 +129,60 @@ impl<Op: PrefixOp<Pair>> FenwickTree<Pair, Op> {
         ensures self.prefix(col) == (0u32, 0u32)
     { lemma_dget_zero::<Op>(self.tree@, col + 1); }
 
-//@extract src/data_structures/bit_tree.rs :: impl<T: Ord + Default + Copy, Op: PrefixOp<T>> FenwickTree<T, Op> :: fn new
-//@subst T=Pair
-    pub fn new(len: usize) -> /*@+(r:@*/ FenwickTree<Pair, Op>/*@+)@*/
-//@+
+    pub fn new(len: usize) -> (r: FenwickTree<Pair, Op>)
         requires len < 0xffff_ffff
         ensures r.wf(), r.cap() == len, r.fresh()
-//@-
     {
         FenwickTree {
-//@rw RVEC
-//@<            tree: vec![Pair::default(); len + 1],
             tree: { let mut __v = Vec::new(); let __x = Pair::default(); let __n = len + 1; for __i in 0..__n
-//@g+
                 invariant __v@.len() == __i, __x == (0u32, 0u32), forall|j: int| 0 <= j < __i ==> __v@[j] == (0u32, 0u32),
-//@g-
               { __v.push(__x); } __v },
-//@>
             phantom: PhantomData,
         }
     }
-//@end
 
-//@extract src/data_structures/bit_tree.rs :: impl<T: Ord + Default + Copy, Op: PrefixOp<T>> FenwickTree<T, Op> :: fn get
-//@subst T=Pair
-    pub fn get(&self, idx: usize) -> /*@+(r:@*/ Pair/*@+)@*/
-//@+
+    pub fn get(&self, idx: usize) -> (r: Pair)
         requires self.wf(), idx < self.cap()
         ensures r == self.prefix(idx as int)
-//@-
     {
-//@+
         let ghost i0 = idx as int;
-//@-
         let mut idx = idx + 1;
         let mut sum = Pair::default();
         while idx > 0
-//@+
             invariant self.wf(), idx < self.tree.len(),
                 dget::<Pair, Op>(self.tree@, sum, idx as int) == dget::<Pair, Op>(self.tree@, (0u32, 0u32), i0 + 1),
             decreases idx
-//@-
         {
-//@+
             proof { lemma_lowbit(idx); }
-//@-
             sum = Op::operation(sum, self.tree[idx]);
             idx -= (idx as isize & -(idx as isize)) as usize;
         }
 
         sum
     }
-//@end
 
-//@extract src/data_structures/bit_tree.rs :: impl<T: Ord + Default + Copy, Op: PrefixOp<T>> FenwickTree<T, Op> :: fn set
-//@subst T=Pair
     pub fn set(&mut self, idx: usize, val: Pair)
-//@+
         requires old(self).wf(), laws::<Pair, Op>(), idx < 0xffff_fffe
         ensures final(self).wf(), final(self).cap() == old(self).cap(),
             forall|q: int| 0 <= q < old(self).cap() ==> #[trigger] final(self).prefix(q) == (if q >= idx { Op::sop(old(self).prefix(q), val) } else { old(self).prefix(q) }),
-//@-
     {
-//@+
         let ghost i = idx as int + 1;
         let ghost old_tree = self.tree@;
-//@-
         let mut idx = idx + 1;
-//@+
         proof {
             assert forall|j: int| 1 <= j < old_tree.len() && j < i implies !covers(j, i) by { lemma_cover_basic(j as u64, i as u64); }
             lemma_cover_basic(1, i as u64);
         }
-//@-
         while idx < self.tree.len()
-//@+
             invariant self.wf(), self.tree.len() == old_tree.len(), 1 <= idx <= 0x2_0000_0000, 1 <= i < 0xffff_ffff,
                 idx < self.tree.len() ==> covers(idx as int, i),
                 forall|j: int| 1 <= j < old_tree.len() ==> #[trigger] self.tree@[j] == (if covers(j, i) && j < idx { Op::sop(old_tree[j], val) } else { old_tree[j] }),
             decreases (if idx < self.tree.len() { self.tree.len() - idx } else { 0 })
-//@-
         {
-//@+
             proof { lemma_lowbit(idx); }
             let ghost cur = idx; let ghost before = self.tree@;
-//@-
             self.tree[idx] = Op::operation(self.tree[idx], val);
             idx += (idx as isize & -(idx as isize)) as usize;
-//@+
             proof {
                 assert(idx == cur + lowbit(cur as u64));
                 assert forall|j: int| 1 <= j < old_tree.len() implies self.tree@[j] == (if covers(j, i) && j < idx { Op::sop(old_tree[j], val) } else { old_tree[j] }) by {
@@ -241,30 +197,23 @@ impl<Op: PrefixOp<Pair>> FenwickTree<Pair, Op> {
                 }
                 lemma_chain(cur as u64, i as u64, 1);
             }
-//@-
         }
-//@+
         proof {
             assert forall|q: int| 0 <= q < old(self).cap() implies #[trigger] final(self).prefix(q) == (if q >= i - 1 { Op::sop(old(self).prefix(q), val) } else { old(self).prefix(q) }) by {
                 lemma_update::<Pair, Op>(old_tree, self.tree@, i, val, (0u32, 0u32), q + 1);
             }
         }
-//@-
     }
-//@end
 }
 pub struct MaxOp;
 pub open spec fn pair_le(a: Pair, b: Pair) -> bool { a.0 < b.0 || (a.0 == b.0 && a.1 <= b.1) }
 pub open spec fn pmax(a: Pair, b: Pair) -> Pair { if pair_le(a, b) { b } else { a } }
 impl PrefixOp<Pair> for MaxOp {
     open spec fn sop(t1: Pair, t2: Pair) -> Pair { pmax(t1, t2) }
-//@extract src/data_structures/bit_tree.rs :: impl<T: Copy + Ord> PrefixOp<T> for MaxOp :: fn operation
-//@subst T=Pair
-    fn operation(t1: Pair, t2: Pair) -> /*@+(r:@*/ Pair/*@+)@*/
+    fn operation(t1: Pair, t2: Pair) -> (r: Pair)
     {
         max(t1, t2)
     }
-//@end
 }
 /// MaxOp on pairs (lexicographic maximum) satisfies the algebraic laws the Fenwick contracts require
 proof fn lemma_maxop_laws() ensures laws::<Pair, MaxOp>() {
@@ -282,13 +231,11 @@ pub assume_specification<T: Ord> [<[T]>::binary_search] (s: &[T], x: &T) -> (r: 
         Err(i) => i <= s@.len() && ((T::obeys_cmp_spec() && forall|a: int, b: int| 0 <= a < b < s@.len() ==> (#[trigger] s@[a].cmp_spec(&s@[b])) == core::cmp::Ordering::Less)
             ==> forall|j: int| 0 <= j < s@.len() ==> (#[trigger] s@[j]).cmp_spec(x) != core::cmp::Ordering::Equal) };
 
-//@extract src/alignment/sparse.rs :: struct SparseAlignmentResult
 pub struct SparseAlignmentResult {
     pub path: Vec<usize>,
     pub score: u32,
     pub dp_vector: Vec<(u32, i32)>,
 }
-//@end
 pub open spec fn pair_lt(a: Pair, b: Pair) -> bool { a.0 < b.0 || (a.0 == b.0 && a.1 < b.1) }
 pub open spec fn ev_le(a: (u32, u32, u32), b: (u32, u32, u32)) -> bool { a.0 < b.0 || (a.0 == b.0 && (a.1 < b.1 || (a.1 == b.1 && a.2 <= b.2))) }
 /// b may follow a in a chain: b continues a on the diagonal, or starts at or after a's end in both coordinates
@@ -301,9 +248,7 @@ pub open spec fn chain_ok(m: Seq<Pair>, path: Seq<usize>, k: int) -> bool {
 pub open spec fn start_ev(m: Seq<Pair>, p: int) -> (u32, u32, u32) { (m[p].0, m[p].1, (p + m.len()) as u32) }
 pub open spec fn end_ev(m: Seq<Pair>, p: int, k: int) -> (u32, u32, u32) { ((m[p].0 + k) as u32, (m[p].1 + k) as u32, p as u32) }
 
-//@extract src/data_structures/bit_tree.rs :: type MaxBitTree
 pub type MaxBitTree<T> = FenwickTree<T, MaxOp>;
-//@end
 /// the sorted event list consists exactly of the start and end events of all matches
 pub open spec fn events_ok(m: Seq<Pair>, k: int, evs: Seq<(u32, u32, u32)>) -> bool {
     &&& evs.len() == 2 * m.len()
@@ -884,9 +829,7 @@ proof fn lemma_end_step(m: Seq<Pair>, k: int, evs: Seq<(u32, u32, u32)>, e: int,
     lemma_end_tree(m, k, evs, e, p, d0, d1, n, pf0, pf1, best0, best1);
     lemma_end_best(m, k, evs, e, p, d0, d1, n, pf0, pf1, best0, best1);
 }
-//@extract src/alignment/sparse.rs :: fn lcskpp
-pub fn lcskpp(matches: &[(u32, u32)], k: usize) -> /*@+(res:@*/ SparseAlignmentResult/*@+)@*/
-//@+
+pub fn lcskpp(matches: &[(u32, u32)], k: usize) -> (res: SparseAlignmentResult)
     requires 1 <= k < 0x1_0000_0000, matches@.len() < 0x4000_0000,
         forall|i: int| 1 <= i < matches@.len() ==> pair_lt(matches@[i - 1], #[trigger] matches@[i]),
         forall|i: int| 0 <= i < matches@.len() ==> (#[trigger] matches@[i]).0 + k < 0xffff_fff0 && matches@[i].1 + k < 0xffff_fff0,
@@ -895,7 +838,6 @@ pub fn lcskpp(matches: &[(u32, u32)], k: usize) -> /*@+(res:@*/ SparseAlignmentR
         // the reported score is the LCSk++ score of the returned chain, and no valid chain of matches scores more
         matches@.len() >= 1 ==> res.score == score(matches@, res.path@, k as int),
         forall|path: Seq<usize>| #[trigger] chain_ok(matches@, path, k as int) ==> score(matches@, path, k as int) <= res.score,
-//@-
 {
     if matches.is_empty() {
         return SparseAlignmentResult {
@@ -909,49 +851,28 @@ pub fn lcskpp(matches: &[(u32, u32)], k: usize) -> /*@+(res:@*/ SparseAlignmentR
 
     // incoming matches must be sorted to let us find the predecessor kmers by binary search.
     for i in 1..matches.len()
-//@+
         invariant forall|i: int| 1 <= i < matches@.len() ==> pair_lt(matches@[i - 1], #[trigger] matches@[i]),
-//@-
     {
-//@rw R18a
-//@<        assert!(
-//@<            matches[i - 1] < matches[i],
-//@<            "incoming matches must be sorted."
-//@<        );
         assert!(matches[i - 1] < matches[i]);
-//@>
     }
 
     let mut events: Vec<(u32, u32, u32)> = Vec::new();
-//@rw RTY u32
-//@<    let mut n = 0;
     let mut n: u32 = 0;
-//@>
-//@+
     let ghost m = matches@; let ghost len = matches@.len() as int; let ghost kk = k as int;
-//@-
-//@rw R1
-//@<    for (idx, &(x, y)) in matches.iter().enumerate() {
     for idx in 0..matches.len()
-//@g+
         invariant m == matches@, len == m.len(), 1 <= len < 0x4000_0000, kk == k, 1 <= kk,
             forall|i: int| 0 <= i < len ==> (#[trigger] m[i]).0 + kk < 0xffff_fff0 && m[i].1 + kk < 0xffff_fff0,
             events@.len() == 2 * idx,
             forall|p: int| 0 <= p < idx ==> events@[2 * p] == #[trigger] start_ev(m, p) && events@[2 * p + 1] == end_ev(m, p, kk),
             n < 0xffff_fff0,
             forall|p: int| 0 <= p < idx ==> (#[trigger] m[p]).0 + kk <= n && m[p].1 + kk <= n,
-//@g-
     { let (x, y) = matches[idx];
-//@>
-//@+
         let ghost evb = events@;
-//@-
         events.push((x, y, (idx + matches.len()) as u32));
         events.push((x + k, y + k, idx as u32));
 
         n = max(n, x + k);
         n = max(n, y + k);
-//@+
         proof {
             assert(events@[2 * idx as int] == start_ev(m, idx as int));
             assert(events@[2 * idx as int + 1] == end_ev(m, idx as int, kk));
@@ -959,37 +880,25 @@ pub fn lcskpp(matches: &[(u32, u32)], k: usize) -> /*@+(res:@*/ SparseAlignmentR
                 if p < idx { assert(events@[2 * p] == evb[2 * p]); assert(events@[2 * p + 1] == evb[2 * p + 1]); }
             }
         }
-//@-
     }
-//@+
     let ghost ev0 = events@;
-//@-
     events.sort_unstable();
-//@+
     let ghost evs = events@;
     proof {
         lemma_events(m, kk, ev0, evs);
     }
-//@-
     let mut max_col_dp: MaxBitTree<(u32, u32)> = MaxBitTree::new(n as usize);
     let mut dp: Vec<(u32, i32)> = Vec::with_capacity(events.len());
-//@rw RTY (u32, i32)
-//@<    let mut best_dp = (k, 0);
     let mut best_dp: (u32, i32) = (k, 0);
-//@>
 
     dp.resize(events.len(), (0, 0));
-//@+
     proof {
         lemma_maxop_laws();
         assert forall|col: int| 0 <= col < n implies #[trigger] max_col_dp.prefix(col) == (0u32, 0u32) by { max_col_dp.lemma_fresh_prefix(col); }
         lemma_sweep_init(m, kk, evs, dp@, n as int, pfn(max_col_dp));
     }
-//@-
-//@rw R31
-//@<    for ev in events {
+
     for __e in 0..events.len()
-//@g+
         invariant m == matches@, len == m.len(), 1 <= len < 0x4000_0000, kk == k, 1 <= kk, evs == events@, evs.len() == 2 * len,
             forall|i: int| 0 <= i < len ==> (#[trigger] m[i]).0 + kk < 0xffff_fff0 && m[i].1 + kk < 0xffff_fff0,
             forall|i: int| 1 <= i < len ==> pair_lt(m[i - 1], #[trigger] m[i]),
@@ -999,19 +908,14 @@ pub fn lcskpp(matches: &[(u32, u32)], k: usize) -> /*@+(res:@*/ SparseAlignmentR
             sweep_ok(m, kk, evs, __e as int, dp@),
             tree_ok(m, kk, evs, __e as int, dp@, n as int, pfn(max_col_dp)),
             best_ok(m, kk, evs, __e as int, dp@, best_dp),
-//@g-
     { let ev = events[__e];
-//@>
-//@+
         let ghost e = __e as int;
         assert(ev == evs[e]);
         assert(has_owner(m, kk, evs[e]));
         let ghost p0 = choose|p0: int| 0 <= p0 < len && is_ev_of(m, kk, evs[e], p0);
-//@-
         let p = (ev.2 % matches.len() as u32) as usize;
         let j = ev.1;
         let is_start = ev.2 >= (matches.len() as u32);
-//@+
         proof {
             assert(0 <= p0 < len && (ev == start_ev(m, p0) || ev == end_ev(m, p0, kk)));
             assert((p0 + len) % len == p0) by (nonlinear_arith) requires 0 <= p0 < len;
@@ -1020,35 +924,23 @@ pub fn lcskpp(matches: &[(u32, u32)], k: usize) -> /*@+(res:@*/ SparseAlignmentR
             assert(is_start <==> ev == start_ev(m, p0));
         }
         let ghost dp0 = dp@; let ghost best0 = best_dp; let ghost pf0 = pfn(max_col_dp);
-//@-
         if is_start {
-//@+
             proof { lemma_start_pre(m, kk, evs, e, p as int, dp0, n as int, pf0); }
-//@-
             dp[p] = (k, -1);
             let (best_value, best_position) = max_col_dp.get(j as usize);
-//@+
             proof { assert((best_value, best_position) == pf0(j as int)); }
-//@-
             if best_value > 0 {
                 dp[p] = (k + best_value, best_position as i32);
                 best_dp = max(best_dp, (dp[p].0, p as i32));
             }
-//@+
             proof { lemma_start_step(m, kk, evs, e, p as int, dp0, dp@, n as int, pf0, best0, best_dp); }
-//@-
         } else {
-//@+
             proof { lemma_end_pre(m, kk, evs, e, p as int, dp0, p as int); }
             let ghost mut cc: int = -1;
             // See if this kmer continues a different kmer
-//@-
             if ev.0 > k && ev.1 > k {
-//@+
                 proof { lemma_sorted_cmp(m); }
-//@-
                 if let Ok(cont_idx) = matches.binary_search(&(ev.0 - k - 1, ev.1 - k - 1)) {
-//@+
                     proof {
                         let c = cont_idx as int;
                         assert(m[c] == ((ev.0 - k - 1) as u32, (ev.1 - k - 1) as u32));
@@ -1057,16 +949,12 @@ pub fn lcskpp(matches: &[(u32, u32)], k: usize) -> /*@+(res:@*/ SparseAlignmentR
                             if c2 < c { lemma_sorted(m, c2, c); } else if c2 > c { lemma_sorted(m, c, c2); }
                         }
                     }
-//@-
                     let prev_score = dp[cont_idx].0;
                     let candidate = (prev_score + 1, cont_idx as i32);
                     dp[p] = max(dp[p], candidate);
                     best_dp = max(best_dp, (dp[p].0, p as i32));
-//@+
                     proof { cc = cont_idx as int; assert(dg(m, cc, p as int)); assert(end_did(m, p as int, dp0, dp@, best0, best_dp, cc)); }
-//@-
                 }
-//@+
                 proof {
                     if cc == -1 {
                         // the search failed: no match sits on the diagonal right before p
@@ -1074,9 +962,7 @@ pub fn lcskpp(matches: &[(u32, u32)], k: usize) -> /*@+(res:@*/ SparseAlignmentR
                         assert(end_did(m, p as int, dp0, dp@, best0, best_dp, -1));
                     }
                 }
-//@-
             }
-//@+
             proof {
                 if !(ev.0 > k && ev.1 > k) {
                     assert forall|c2: int| 0 <= c2 < len implies !#[trigger] dg(m, c2, p as int) by { }
@@ -1085,32 +971,23 @@ pub fn lcskpp(matches: &[(u32, u32)], k: usize) -> /*@+(res:@*/ SparseAlignmentR
             }
             let ghost dp1 = dp@; let ghost best1 = best_dp;
             proof { assert(end_did(m, p as int, dp0, dp1, best0, best1, cc)); }
-//@-
             max_col_dp.set(ev.1 as usize, (dp[p].0, p as u32));
-//@+
             proof {
                 let pf1 = pfn(max_col_dp);
                 assert forall|col: int| 0 <= col < n implies #[trigger] pf1(col) == (if col >= ev.1 { pmax(pf0(col), (dp1[p as int].0, p as u32)) } else { pf0(col) }) by { }
                 lemma_end_step(m, kk, evs, e, p as int, dp0, dp1, n as int, pf0, pf1, best0, best1);
             }
-//@-
         }
     }
-//@+
     proof {
         lemma_sweep_done(m, kk, evs, dp@, best_dp);
         assert forall|path: Seq<usize>| #[trigger] chain_ok(m, path, kk) implies score(m, path, kk) <= best_dp.0 by {
             lemma_chain_bound(m, kk, dp@, path);
         }
     }
-//@-
-//@rw RTY Vec<usize>
-//@<    let mut traceback = Vec::new();
     let mut traceback: Vec<usize> = Vec::new();
-//@>
     let (best_score, mut prev_match) = best_dp;
     while prev_match >= 0
-//@+
         invariant m == matches@, len == m.len(), dp@.len() == 2 * len, -1 <= prev_match < len,
             forall|p: int| 0 <= p < len ==> dp_ok(m, kk, p, #[trigger] dp@[p]),
             forall|i: int| 0 <= i < traceback@.len() ==> (#[trigger] traceback@[i]) < len,
@@ -1119,16 +996,12 @@ pub fn lcskpp(matches: &[(u32, u32)], k: usize) -> /*@+(res:@*/ SparseAlignmentR
             traceback@.len() > 0 ==> dp@[traceback@[traceback@.len() - 1] as int].1 == prev_match && traceback@[0] == best_dp.1,
             traceback@.len() == 0 ==> prev_match >= 0 && prev_match == best_dp.1,
         decreases (if prev_match >= 0 { m[prev_match as int].0 + 1 } else { 0 })
-//@-
     {
         traceback.push(prev_match as usize);
         prev_match = dp[prev_match as usize].1;
     }
-//@+
     let ghost tb = traceback@;
-//@-
     traceback.reverse();
-//@+
     proof {
         let r = traceback@;
         assert(r.len() == tb.len());
@@ -1145,13 +1018,11 @@ pub fn lcskpp(matches: &[(u32, u32)], k: usize) -> /*@+(res:@*/ SparseAlignmentR
         lemma_trace_score(m, kk, dp@, r, r.len() - 1);
         assert(r.subrange(0, r.len() as int) =~= r);
     }
-//@-
     SparseAlignmentResult {
         path: traceback,
         score: best_score,
         dp_vector: dp,
     }
 }
-//@end
-} // verus!
-fn main() {}
+}
+fn main(){}
